@@ -344,12 +344,15 @@ theorem setContentLength_some {b b' : BodySize} {n : Nat} (h : setContentLength 
   · cases h; exact ⟨rfl, fun m hm => by simp_all⟩
 
 theorem writeRegular_ok {lim : Limits} {s s' : VS} {k v : Bytes} (h : writeRegular lim s k v = .ok s') :
-    s'.fields = s.fields ++ [.hdr k v] ∧ s'.jar = s.jar ∧ s'.method = s.method ∧ s'.authority = s.authority ∧
+    (s'.fields = s.fields ++ [.hdr k v] ∨ s'.fields = s.fields) ∧ s'.jar = s.jar ∧ s'.method = s.method ∧
+    s'.authority = s.authority ∧
     s'.path = s.path ∧ s'.scheme = s.scheme ∧ s'.regular = s.regular ∧ s'.hostValue = s.hostValue ∧
     s'.hostConflict = s.hostConflict ∧ s'.cookiesAdded = s.cookiesAdded ∧
-    ((eqNoCase k sContentLength = false ∧ s'.body = s.body) ∨
+    ((eqNoCase k sContentLength = false ∧ s'.body = s.body ∧ s'.fields = s.fields ++ [.hdr k v]) ∨
      (eqNoCase k sContentLength = true ∧ v ≠ [] ∧ v.all isDigit = true ∧ s'.body = .length (decVal v) ∧
-        ∀ m, s.body = .length m → m = decVal v)) := by
+        (∀ m, s.body = .length m → m = decVal v) ∧
+        ((s.body ≠ .length (decVal v) ∧ s'.fields = s.fields ++ [.hdr k v]) ∨
+         (s.body = .length (decVal v) ∧ s'.fields = s.fields)))) := by
   unfold writeRegular at h
   split at h
   · next hk =>
@@ -360,14 +363,23 @@ theorem writeRegular_ok {lim : Limits} {s s' : VS} {k v : Bytes} (h : writeRegul
     | none => simp [hsc] at h
     | some b =>
       simp only [hsc] at h
-      cases h
       have := setContentLength_some hsc
       simp only [Bool.or_eq_true, Bool.not_eq_true', not_or, Bool.not_eq_true, Bool.not_eq_false] at h1
-      refine ⟨rfl, rfl, rfl, rfl, rfl, rfl, rfl, rfl, rfl, rfl, .inr ⟨hk, ?_, h1.2, this.1, this.2⟩⟩
-      intro e; simp [e] at h1
+      have hne : v ≠ [] := by intro e; simp [e] at h1
+      split at h
+      · next hal =>
+        cases h
+        have hal' : s.body = .length (decVal v) := by simpa using hal
+        exact ⟨.inr rfl, rfl, rfl, rfl, rfl, rfl, rfl, rfl, rfl, rfl,
+          .inr ⟨hk, hne, h1.2, hal', this.2, .inr ⟨hal', rfl⟩⟩⟩
+      · next hal =>
+        cases h
+        have hal' : s.body ≠ .length (decVal v) := by simpa using hal
+        exact ⟨.inl rfl, rfl, rfl, rfl, rfl, rfl, rfl, rfl, rfl, rfl,
+          .inr ⟨hk, hne, h1.2, this.1, this.2, .inl ⟨hal', rfl⟩⟩⟩
   · next hk =>
     cases h
-    exact ⟨rfl, rfl, rfl, rfl, rfl, rfl, rfl, rfl, rfl, rfl, .inl ⟨by simpa using hk, rfl⟩⟩
+    exact ⟨.inl rfl, rfl, rfl, rfl, rfl, rfl, rfl, rfl, rfl, rfl, .inl ⟨by simpa using hk, rfl, rfl⟩⟩
 
 theorem map_ok {ε α β : Type} {f : α → β} {e : Except ε α} {b : β} (h : e.map f = .ok b) :
     ∃ a, e = .ok a ∧ f a = b := by
@@ -385,8 +397,8 @@ theorem perHeader_cases {lim : Limits} {s s' : VS} {k v : Bytes} (h : perHeader 
     (eqNoCase k sMethod = true ∧ s.method = none ∧ s.regular = false ∧ v ≠ [] ∧ v.all isTchar = true ∧
         s' = { s with method := some v })
     ∨ (eqNoCase k sScheme = true ∧ s.scheme = none ∧ s.regular = false ∧ s' = { s with scheme := some v })
-    ∨ (eqNoCase k sPath = true ∧ s.path = none ∧ s.regular = false ∧ v ≠ [] ∧ v.any isBadPseudoByte = false ∧
-        s' = { s with path := some v })
+    ∨ (eqNoCase k sPath = true ∧ s.path = none ∧ s.regular = false ∧ v ≠ [] ∧
+        (v.any isBadPseudoByte = false ∧ List.contains v 32 = false) ∧ s' = { s with path := some v })
     ∨ (eqNoCase k sAuthority = true ∧ s.authority = none ∧ s.regular = false ∧ v ≠ [] ∧
         v.any isBadPseudoByte = false ∧ s' = { s with authority := some v })
     ∨ (NotPseudo k ∧ eqNoCase k sCookie = true ∧ cookieLoop lim (splitBy 59 v) true { s with regular := true } = .ok s')
@@ -415,10 +427,13 @@ theorem perHeader_cases {lim : Limits} {s s' : VS} {k v : Bytes} (h : perHeader 
       split at h
       · next h3 =>
         split at h; · cases h
+        next hsp =>
+        have hsp' : List.contains v 32 = false := by
+          simp only [Bool.or_eq_true, not_or, Bool.not_eq_true] at hsp; exact hsp.2
         obtain ⟨x, hx, hs⟩ := map_ok h
         obtain ⟨a, b, c, d, e⟩ := storePseudo_ok hx
         subst c
-        exact .inr (.inr (.inl ⟨h3, a, b, d, e, hs.symm⟩))
+        exact .inr (.inr (.inl ⟨h3, a, b, d, ⟨e, hsp'⟩, hs.symm⟩))
       · next h3 =>
         split at h
         · next h4 =>
@@ -455,7 +470,7 @@ theorem perHeader_ext {lim : Limits} {s s' : VS} {k v : Bytes} (h : perHeader li
   · obtain ⟨_, _, w1, w2, w3, w4, w5, _, w7, _, w9⟩ := writeRegular_ok hw
     refine ⟨by simp [w5], by simp [w1], by simp [w2], by simp [w3], by simp [w4], ?_, by simp [w7]⟩
     intro n hn
-    rcases w9 with ⟨_, hb⟩ | ⟨_, _, _, hb, hm⟩
+    rcases w9 with ⟨_, hb, _⟩ | ⟨_, _, _, hb, hm, _⟩
     · simpa [hb] using hn
     · have := hm n (by simpa using hn); simp [hb, this]
 
@@ -551,7 +566,8 @@ theorem cl_not_others {k : Bytes} (hk : eqNoCase k sContentLength = true) :
 theorem step_cl {lim : Limits} {s s' : VS} {k v : Bytes} (hk : eqNoCase k sContentLength = true)
     (h : stepHeader lim s (k, v) = .ok s') :
     s'.body = .length (decVal v) ∧ v ≠ [] ∧ v.all isDigit = true ∧ (∀ m, s.body = .length m → m = decVal v) ∧
-    s'.fields = s.fields ++ [.hdr k v] ∧ s'.jar = s.jar := by
+    ((s.body ≠ .length (decVal v) ∧ s'.fields = s.fields ++ [.hdr k v]) ∨
+     (s.body = .length (decVal v) ∧ s'.fields = s.fields)) ∧ s'.jar = s.jar := by
   obtain ⟨c1, c2, c3, c4, c5, c6⟩ := cl_not_others hk
   rcases perHeader_cases (stepHeader_ok h).2 with ⟨a, _⟩ | ⟨a, _⟩ | ⟨a, _⟩ | ⟨a, _⟩ | ⟨_, a, _⟩ | ⟨_, _, a, _⟩ | ⟨_, _, _, hw⟩
   · simp [c1] at a
@@ -560,10 +576,10 @@ theorem step_cl {lim : Limits} {s s' : VS} {k v : Bytes} (hk : eqNoCase k sConte
   · simp [c4] at a
   · simp [c5] at a
   · simp [c6] at a
-  · obtain ⟨w1, w2, _, _, _, _, _, _, _, _, w9⟩ := writeRegular_ok hw
-    rcases w9 with ⟨hn, _⟩ | ⟨_, a, b, c, d⟩
+  · obtain ⟨_, w2, _, _, _, _, _, _, _, _, w9⟩ := writeRegular_ok hw
+    rcases w9 with ⟨hn, _⟩ | ⟨_, a, b, c, d, e⟩
     · simp [hk] at hn
-    · exact ⟨c, a, b, fun m hm => d m (by simpa using hm), by simpa using w1, by simpa using w2⟩
+    · exact ⟨c, a, b, fun m hm => d m (by simpa using hm), by simpa using e, by simpa using w2⟩
 
 theorem validate_rejects_cl_conflict (lim : Limits) (es : Bool) (pre mid post : List (Bytes × Bytes))
     (k1 k2 v1 v2 : Bytes) (h1 : eqNoCase k1 sContentLength = true) (h2 : eqNoCase k2 sContentLength = true)
@@ -798,7 +814,7 @@ structure VClean (s : VS) : Prop where
     NameOK k ∧ (∀ b ∈ k, isUpper b = false) ∧ ValueOK v ∧ eqNoCase k sHost = false ∧ eqNoCase k sTransferEncoding = false
   jar : ∀ c ∈ s.jar, ValueOK c.key ∧ ValueOK c.val ∧ c.elided = false
   method : ∀ m, s.method = some m → m ≠ [] ∧ ∀ b ∈ m, isTchar b = true
-  path : ∀ p, s.path = some p → p ≠ [] ∧ ∀ b ∈ p, isBadPseudoByte b = false
+  path : ∀ p, s.path = some p → p ≠ [] ∧ (∀ b ∈ p, isBadPseudoByte b = false) ∧ 32 ∉ p
   authority : ∀ a, s.authority = some a → a ≠ [] ∧ ∀ b ∈ a, isBadPseudoByte b = false
 
 theorem VClean.init : VClean {} := ⟨by simp, by simp, by simp, by simp, by simp⟩
@@ -823,7 +839,7 @@ theorem step_clean {lim : Limits} {s s' : VS} {kv : Bytes × Bytes} (hc : VClean
     ⟨np, _, hloop⟩ | ⟨np, _, _, rfl | rfl⟩ | ⟨np, hnc, hnh, hw⟩
   · exact ⟨hc.fields, hc.jar, by intro m hm; simp at hm; subst hm; exact ⟨vne, by simpa using vt⟩, hc.path, hc.authority⟩
   · exact ⟨hc.fields, hc.jar, hc.method, hc.path, hc.authority⟩
-  · exact ⟨hc.fields, hc.jar, hc.method, by intro m hm; simp at hm; subst hm; exact ⟨vne, by simpa using vb⟩, hc.authority⟩
+  · exact ⟨hc.fields, hc.jar, hc.method, by intro m hm; simp at hm; subst hm; exact ⟨vne, by simpa using vb.1, by simpa using vb.2⟩, hc.authority⟩
   · exact ⟨hc.fields, hc.jar, hc.method, hc.path, by intro m hm; simp at hm; subst hm; exact ⟨vne, by simpa using vb⟩⟩
   · obtain ⟨⟨extra, he, hx⟩, cs, hj, hcs⟩ := cookieLoop_adds _ _ _ _ _ hloop
     obtain ⟨c1, c2, c3, _⟩ := cookieLoop_core _ _ _ _ _ hloop
@@ -843,7 +859,10 @@ theorem step_clean {lim : Limits} {s s' : VS} {kv : Bytes × Bytes} (hc : VClean
   · obtain ⟨w1, w2, w3, w4, w5, _⟩ := writeRegular_ok hw
     refine ⟨?_, by rw [w2]; exact hc.jar, by rw [w3]; exact hc.method, by rw [w5]; exact hc.path, by rw [w4]; exact hc.authority⟩
     intro k v hm
-    rw [w1] at hm
+    have hm : Field.hdr k v ∈ s.fields ++ [.hdr kv.1 kv.2] := by
+      rcases w1 with w1 | w1
+      · rw [w1] at hm; simpa using hm
+      · rw [w1] at hm; exact List.mem_append.mpr (.inl (by simpa using hm))
     rcases List.mem_append.mp hm with hm | hm
     · exact hc.fields k v hm
     · simp only [List.mem_cons, Field.hdr.injEq, List.mem_nil_iff, or_false] at hm
@@ -1030,7 +1049,7 @@ theorem validate_clean (lim : Limits) (es : Bool) (hl : List (Bytes × Bytes)) (
         exact ⟨this.1, this.2.1⟩
   exact
     { method_ne := by rw [f1]; exact hm.1, method_tok := by rw [f1]; exact hm.2,
-      target_ne := by rw [f2]; exact hp.1, target_ok := by rw [f2]; exact hp.2,
+      target_ne := by rw [f2]; exact hp.1, target_ok := by rw [f2]; exact hp.2.1,
       host_ne := by rw [f3]; exact ha.1, host_ok := by rw [f3]; exact ha.2,
       names := fun kv hkv => (hline kv hkv).1, values := fun kv hkv => (hline kv hkv).2,
       client_lower := by
@@ -1051,7 +1070,7 @@ theorem step_body_shape {lim : Limits} {s s' : VS} {kv : Bytes × Bytes} (hb : s
   · have := (cookieLoop_core _ _ _ _ _ hc).2.2.2.2.2.1; rw [this]; exact hb
   · exact hb
   · exact hb
-  · rcases (writeRegular_ok hw).2.2.2.2.2.2.2.2.2.2 with ⟨_, e⟩ | ⟨_, _, _, e, _⟩
+  · rcases (writeRegular_ok hw).2.2.2.2.2.2.2.2.2.2 with ⟨_, e, _⟩ | ⟨_, _, _, e, _⟩
     · rw [e]; exact hb
     · rw [e]; simp
 
@@ -1238,8 +1257,8 @@ theorem step_noncl {lim : Limits} {s s' : VS} {kv : Bytes × Bytes} (hk : eqNoCa
   · exact ⟨rfl, [], by simp, by simp⟩
   · exact ⟨rfl, [], by simp, by simp⟩
   · obtain ⟨w1, _, _, _, _, _, _, _, _, _, w9⟩ := writeRegular_ok hw
-    rcases w9 with ⟨_, hb⟩ | ⟨hk', _⟩
-    · exact ⟨by simpa using hb, [.hdr kv.1 kv.2], by simpa using w1, by
+    rcases w9 with ⟨_, hb, hfld⟩ | ⟨hk', _⟩
+    · exact ⟨by simpa using hb, [.hdr kv.1 kv.2], by simpa using hfld, by
         intro f hf; simp at hf; subst hf; simpa [isHdrNamed] using hk⟩
     · simp [hk] at hk'
 
@@ -1263,77 +1282,37 @@ theorem oneCL_step {lim : Limits} {s s' : VS} {kv : Bytes × Bytes} {k v : Bytes
     exact hx
   simp [this]
 
-theorem filter_le_one_split {α : Type} (p : α → Bool) (l : List α) (h : (l.filter p).length ≤ 1) :
-    (∀ x ∈ l, p x = false) ∨
-    ∃ pre x post, l = pre ++ x :: post ∧ p x = true ∧ (∀ y ∈ pre, p y = false) ∧ (∀ y ∈ post, p y = false) := by
-  induction l with
-  | nil => exact .inl (by simp)
-  | cons a t ih =>
-    by_cases ha : p a = true
-    · have hlen : ((a :: t).filter p).length = (t.filter p).length + 1 := by simp [List.filter_cons, ha]
-      have ht : (t.filter p).length = 0 := by omega
-      have ht' : ∀ y ∈ t, p y = false := by
-        have : t.filter p = [] := List.eq_nil_of_length_eq_zero ht
-        simpa [List.filter_eq_nil_iff] using this
-      exact .inr ⟨[], a, t, rfl, ha, by simp, ht'⟩
-    · have ha' : p a = false := by simpa using ha
-      have : (t.filter p).length ≤ 1 := by simpa [List.filter_cons, ha'] using h
-      rcases ih this with hall | ⟨pre, x, post, e, hx, hpre, hpost⟩
-      · exact .inl (by intro y hy; rcases List.mem_cons.mp hy with rfl | hy; exact ha'; exact hall y hy)
-      · exact .inr ⟨a :: pre, x, post, by simp [e], hx,
-          by intro y hy; rcases List.mem_cons.mp hy with rfl | hy; exact ha'; exact hpre y hy, hpost⟩
+/-- the content-length bookkeeping is an invariant of every step: either none
+    was seen, or exactly one `content-length` line has been written (an equal
+    duplicate is dropped, a differing one rejects) -/
+theorem cl_step {lim : Limits} {s s' : VS} {kv : Bytes × Bytes}
+    (hp : NoCL s ∨ ∃ k v, OneCL k v s) (h : stepHeader lim s kv = .ok s') : NoCL s' ∨ ∃ k v, OneCL k v s' := by
+  by_cases hk : eqNoCase kv.1 sContentLength = true
+  · obtain ⟨c1, c2, c3, c4, c5, _⟩ := step_cl (k := kv.1) (v := kv.2) hk h
+    rcases hp with hno | ⟨k, v, hone⟩
+    · rcases c5 with ⟨_, e⟩ | ⟨e, _⟩
+      · refine .inr ⟨kv.1, kv.2, c1, c2, c3, ?_⟩
+        rw [e, List.filter_append]
+        have : s.fields.filter (isHdrNamed sContentLength) = [] := by
+          simp only [List.filter_eq_nil_iff, Bool.not_eq_true]; exact hno.2
+        simp [this, isHdrNamed, hk]
+      · rw [hno.1] at e; cases e
+    · have hd := c4 _ hone.1
+      rcases c5 with ⟨e, _⟩ | ⟨_, e⟩
+      · exact (e (by rw [hone.1, hd])).elim
+      · exact .inr ⟨k, v, by rw [c1, hd], hone.2.1, hone.2.2.1, by rw [e]; exact hone.2.2.2⟩
+  · have hk' : eqNoCase kv.1 sContentLength = false := by simpa using hk
+    rcases hp with hno | ⟨k, v, hone⟩
+    · exact .inl (noCL_step hk' hno h)
+    · exact .inr ⟨k, v, oneCL_step hk' hone h⟩
 
-/-- the content-length bookkeeping at the end of the fold, for a header list
-    with at most one `content-length` field -/
 theorem fold_cl {lim : Limits} (hl : List (Bytes × Bytes)) (s : VS)
-    (hcl : (hl.filter fun kv => eqNoCase kv.1 sContentLength).length ≤ 1)
-    (h : foldHeaders lim hl {} = .ok s) : NoCL s ∨ ∃ k v, OneCL k v s := by
-  rcases filter_le_one_split _ hl hcl with hall | ⟨pre, x, post, e, hx, hpre, hpost⟩
-  · exact .inl (foldHeaders_pres_mem NoCL hl hl (fun _ h => h)
-      (fun s s' kv hm hp hs => noCL_step (hall kv hm) hp hs) ⟨rfl, by simp⟩ h)
-  · subst e
-    rcases foldHeaders_append (lim := lim) pre (x :: post) {} with ⟨e, he⟩ | ⟨s1, h1, h2⟩
-    · rw [he] at h; cases h
-    · rw [h2] at h
-      simp only [foldHeaders] at h
-      cases hs : stepHeader lim s1 x with
-      | error r => simp [hs] at h
-      | ok s2 =>
-        simp only [hs] at h
-        have p1 : NoCL s1 := foldHeaders_pres_mem NoCL pre pre (fun _ h => h)
-          (fun s s' kv hm hp hs => noCL_step (hpre kv hm) hp hs) ⟨rfl, by simp⟩ h1
-        obtain ⟨c1, c2, c3, _, c5, _⟩ := step_cl (k := x.1) (v := x.2) hx hs
-        have p2 : OneCL x.1 x.2 s2 := by
-          refine ⟨c1, c2, c3, ?_⟩
-          rw [c5, List.filter_append]
-          have : s1.fields.filter (isHdrNamed sContentLength) = [] := by
-            simp only [List.filter_eq_nil_iff, Bool.not_eq_true]
-            exact p1.2
-          simp [this, isHdrNamed, hx]
-        exact .inr ⟨x.1, x.2, foldHeaders_pres_mem (OneCL x.1 x.2) post post (fun _ h => h)
-          (fun s s' kv hm hp hs => oneCL_step (hpost kv hm) hp hs) p2 h⟩
-
-/-- the `:path` value in the state is one of the `:path` values of the list -/
-theorem fold_path {lim : Limits} (hl : List (Bytes × Bytes)) (s : VS) (h : foldHeaders lim hl {} = .ok s) :
-    ∀ p, s.path = some p → ∃ kv ∈ hl, eqNoCase kv.1 sPath = true ∧ kv.2 = p := by
-  refine foldHeaders_pres_mem (fun s => ∀ p, s.path = some p → ∃ kv ∈ hl, eqNoCase kv.1 sPath = true ∧ kv.2 = p)
-    hl hl (fun _ h => h) ?_ (by simp) h
-  intro s s' kv hm hp hs
-  rcases perHeader_cases (stepHeader_ok hs).2 with ⟨_, _, _, _, _, rfl⟩ | ⟨_, _, _, rfl⟩ | ⟨a, _, _, _, _, rfl⟩ | ⟨_, _, _, _, _, rfl⟩ |
-    ⟨_, _, hc⟩ | ⟨_, _, _, rfl | rfl⟩ | ⟨_, _, _, hw⟩
-  · exact hp
-  · exact hp
-  · intro p e; simp at e; exact ⟨kv, hm, a, e⟩
-  · exact hp
-  · have := (cookieLoop_core _ _ _ _ _ hc).2.2.1; intro p e; rw [this] at e; exact hp p e
-  · exact hp
-  · exact hp
-  · have := (writeRegular_ok hw).2.2.2.2.1; intro p e; rw [this] at e; exact hp p e
+    (h : foldHeaders lim hl {} = .ok s) : NoCL s ∨ ∃ k v, OneCL k v s :=
+  foldHeaders_pres (fun s => NoCL s ∨ ∃ k v, OneCL k v s) (fun _ _ _ hp hs => cl_step hp hs) hl
+    (.inl ⟨rfl, by simp⟩) h
 
 theorem validate_wf (lim : Limits) (es : Bool) (hl : List (Bytes × Bytes)) (r : Req)
-    (h : validateRequest lim es hl = .ok r)
-    (hsp : ∀ kv ∈ hl, eqNoCase kv.1 sPath = true → 32 ∉ kv.2)
-    (hcl : (hl.filter fun kv => eqNoCase kv.1 sContentLength).length ≤ 1) : WF r := by
+    (h : validateRequest lim es hl = .ok r) : WF r := by
   have hclean := validate_clean lim es hl r h
   obtain ⟨s, r0, hf, hd, hfr⟩ := validate_ok h
   have hc := fold_clean hl VClean.init hf
@@ -1343,9 +1322,9 @@ theorem validate_wf (lim : Limits) (es : Bool) (hl : List (Bytes × Bytes)) (r :
     foldHeaders_pres (fun s => s.body ≠ .chunked) (fun _ _ _ hp hs => step_body_shape hp hs) hl (by simp) hf
   -- target without SP
   have htarget : ∀ b ∈ r.target, isTargetByte b = true := by
-    obtain ⟨kv, hm, hk, hv⟩ := fold_path hl s hf r0.target d2
+    have hp := hc.path _ d2
     rw [f2]
-    exact target_of_pseudo (by rw [← f2]; exact hclean.target_ok) (by rw [← hv]; exact hsp kv hm hk)
+    exact target_of_pseudo hp.2.1 hp.2.2
   -- no Host / Transfer-Encoding among the client's fields
   have hnoHost : s.fields.filter (isHdrNamed sHost) = [] := by
     simp only [List.filter_eq_nil_iff, Bool.not_eq_true]
@@ -1393,7 +1372,7 @@ theorem validate_wf (lim : Limits) (es : Bool) (hl : List (Bytes × Bytes)) (r :
       one_host := hHost, framing := ?_ }
   unfold framingOf
   rw [hTE, hCL]
-  rcases fold_cl hl s hcl hf with hno | ⟨k, v, hone⟩
+  rcases fold_cl hl s hf with hno | ⟨k, v, hone⟩
   · -- no content-length: sozu adds exactly one framing header
     have hnoCL : s.fields.filter (isHdrNamed sContentLength) = [] := by
       simp only [List.filter_eq_nil_iff, Bool.not_eq_true]; exact hno.2
@@ -1405,7 +1384,7 @@ theorem validate_wf (lim : Limits) (es : Bool) (hl : List (Bytes × Bytes)) (r :
       decide
     · rw [e, d4, List.filter_append, List.filter_append, hnoTE, hnoCL, eb]
       decide
-  · -- one content-length: forwarded as is, nothing added
+  · -- one content-length line on the wire, nothing added
     rcases f5 with ⟨e, eb, _⟩ | ⟨_, eb0, _, _⟩ | ⟨_, eb0, _, _⟩
     · rw [e, d4, hnoTE, hone.2.2.2, eb, d6, hone.1]
       simp only [List.filterMap_nil, List.filterMap_cons, pairOf, trimOws_digits hone.2.2.1]
